@@ -740,6 +740,100 @@ def rule_typedef_function(chk, prog, tier):
     r.exhaustive = True
 
 
+def rule_func_name_once(chk, prog, tier):
+    r = chk.rule('C09.j', 'the implicit `static const char __func__[]` object of a function is defined in the output exactly once - on its first use - however often the function names it, and not at all if it never does: '
+                 'one translation unit never defines the same symbol twice', floor=3, oracle='C11 6.4.2.2p1; 6.9p3/p5 (one definition)')
+    fn = prog.require_func('funclval', 'qbe.c')
+    for nuses in (0, 1, 2, 3):
+        def runner(it):
+            w = World(prog, it=it, target='x86_64-sysv')
+            out = []
+            def sink(tag):
+                def m(i2, a, e):
+                    out.append(tag if tag != 'fputs' else bytes(read_cstr(i2, a[0])).decode())
+                    return 0
+                return m
+            it.models.update({'fputs': sink('fputs'), 'emitname': sink('<name>'), 'printf': sink('<printf>'),
+                              'error': lambda i2, a, e: (_ for _ in ()).throw(Terminal('error', cmodel.fmt_of(i2, a, 1)))})
+            arr = it.call('mkarraytype', [w.t('char'), ev(prog, 'QUALCONST'), 3])
+            d = Obj('decl:__func__', 'heap'); d.f.update({('kind',): ev(prog, 'DECLOBJECT'), ('type',): arr, ('qual',): 0, ('value',): cmodel.val('$.L__func__'), ('name',): None})
+            other = Obj('decl:x', 'heap'); other.f.update({('kind',): ev(prog, 'DECLOBJECT'), ('type',): w.t('int'), ('qual',): 0, ('value',): cmodel.val('$x'), ('name',): None})
+            f = Obj('func', 'heap'); f.f.update({('namedecl',): Ptr(d, ()), ('name',): Ptr(it.mkstr(list(b'fn'), 'fn'), (0,))})
+            def use(dd):
+                e = w.mkexpr('EXPRIDENT', it.load(dd, ('type',)), None, u__ident__decl=Ptr(dd, ()))
+                lv = it.call(fn, [Ptr(f, ()), e])
+                return lv.f.get(('addr',))
+            addrs = [use(other)]
+            for _ in range(nuses): addrs.append(use(d)); addrs.append(use(other))
+            return out.count('data '), all(a is not None and a.obj is (other if k % 2 == 0 else d).f[('value',)].obj for k, a in enumerate(addrs))
+        runs = explore(prog, runner, {}, max_runs=4, on_unsupported='keep')
+        key = '__func__:used %d time%s' % (nuses, '' if nuses == 1 else 's')
+        if len(runs) != 1 or runs[0].outcome != 'return':
+            raise AnalysisBroken('%s: %s' % (key, [(x.outcome, x.detail) for x in runs][:2]))
+        ndef, addr_ok = runs[0].value
+        r.instance(ndef == min(nuses, 1) and addr_ok, key, 'qbe.c:%s' % fn.get('line'),
+                   'expected %d definition(s) of the __func__ object in the output and every use to yield the declaration\'s address; cproc emits %d definition(s)%s' % (min(nuses, 1), ndef, '' if addr_ok else ', and a use yields another address'))
+    r.exhaustive = False
+
+
+def rule_tentative_objects(chk, prog, tier, rid='C09.k'):
+    r = chk.rule(rid, 'a tentative definition is defined at the end of the unit with the type and alignment the object has THEN: an object declared while its structure type was still incomplete, or as an array of unknown size, is '
+                 'still queued and gets the completed type\'s size and alignment; an alignment given by an earlier declaration (_Alignas) survives later declarations without one', floor=7,
+                 oracle='C11 6.9.2p2-5, 6.7.5p6-7')
+    decl_fn = prog.require_func('decl', 'decl.c'); flush_fn = prog.require_func('emittentativedefns', 'decl.c')
+    # (key, [declarations: (type, storage classes, _Alignas value, initialiser?)], completes the struct afterwards, expected (number of definitions, size, alignment))
+    CASES = [('struct S s; struct S { long a; char b; };', [('S', (), 0, False)], True, (1, 16, 8)),
+             ('static struct S s; struct S { long a; char b; };', [('S', ('static',), 0, False)], True, (1, 16, 8)),
+             ('struct S s; extern struct S s; struct S { long a; char b; };', [('S', (), 0, False), ('S', ('extern',), 0, False)], True, (1, 16, 8)),
+             ('int a[];', [('A', (), 0, False)], False, (1, 4, 4)),
+             ('int x;', [('int', (), 0, False)], False, (1, 4, 4)),
+             ('_Alignas(16) int x; extern int x;', [('int', (), 16, False), ('int', ('extern',), 0, False)], False, (1, 4, 16)),
+             ('_Alignas(16) int x; int x;', [('int', (), 16, False), ('int', (), 0, False)], False, (1, 4, 16)),
+             ('_Alignas(32) static int x; static int x;', [('int', ('static',), 32, False), ('int', ('static',), 0, False)], False, (1, 4, 32)),
+             ('_Alignas(16) int x; int x = 1;', [('int', (), 16, False), ('int', (), 0, True)], False, (1, 4, 16)),
+             ('extern _Alignas(16) int x; int x;', [('int', ('extern',), 16, False), ('int', (), 0, False)], False, (1, 4, 16))]
+    for key, decls, complete, want in CASES:
+        def runner(it):
+            dw = DeclWorld(prog, it); it.user['dw'] = dw
+            S = dw.w.mkstruct(size=0, align=0); S.obj.f[('incomplete',)] = 1
+            A = it.call('mkarraytype', [dw.w.t('int'), 0, 0])
+            T = {'S': S, 'A': A, 'int': dw.w.t('int')}
+            defs = []
+            cur = {}
+            base_declspecs = it.models['declspecs']
+            def declspecs(i2, a, e):
+                base_declspecs(i2, a, e)
+                i2.assign(a[3].obj, a[3].path, cur['align'])
+                return StructVal({('type',): T[cur['ty']], ('qual',): 0, ('expr',): None})
+            def declarator(i2, a, e):
+                s_, base, name, funcscope, allowabstract = a
+                i2.assign(name.obj, name.path, dw.name); i2.assign(funcscope.obj, funcscope.path, None)
+                return StructVal({('type',): T[cur['ty']], ('qual',): 0, ('expr',): None})
+            def emitdata(i2, a, e):
+                dd = a[0]; t = i2.load(dd.obj, ('type',))
+                defs.append((i2.load(t.obj, ('size',)), i2.load(dd.obj, ('u', 'obj', 'align')), i2.load(t.obj, ('incomplete',))))
+                return None
+            it.models.update({'declspecs': declspecs, 'declarator': declarator, 'emitdata': emitdata})
+            for ty, sc, al, init in decls:
+                cur.update({'ty': ty, 'align': al})
+                it.user['cur'] = D('obj', 'file', sc, init=init); it.user['semi'] = [False, True]
+                dw.tokobj.f[('kind',)] = ev(prog, 'TSEMICOLON')
+                it.call(decl_fn, [dw.filescope, None])
+            if complete:
+                S.obj.f[('incomplete',)] = 0; S.obj.f[('size',)] = 16; S.obj.f[('align',)] = 8
+            it.call(flush_fn, [])
+            return defs
+        runs = explore(prog, runner, decl_models(prog, None), max_runs=4, on_unsupported='keep')
+        k2 = 'tentative-object:' + key
+        if len(runs) != 1 or runs[0].outcome not in ('return', 'terminal:error'):
+            raise AnalysisBroken('%s: %s' % (k2, [(x.outcome, x.detail) for x in runs][:2]))
+        run = runs[0]
+        ok = run.outcome == 'return' and len(run.value) == want[0] and all(v == (want[1], want[2], 0) for v in run.value)
+        r.instance(ok, k2, 'decl.c:%s' % decl_fn.get('line'), 'the unit must define the object once, with size %d and alignment %d; cproc: %s' % (want[1], want[2],
+                   ['size %s, align %s%s' % (v[0], v[1], ', type still incomplete' if v[2] else '') for v in run.value] if run.outcome == 'return' else (run.outcome, run.detail)))
+    r.exhaustive = False
+
+
 def run(chk, tier):
     prog = facts.programs()['cproc-qbe']
     chk.guard('C09.b', lambda: rule_histories(chk, prog, tier))
@@ -750,3 +844,5 @@ def run(chk, tier):
     chk.guard('C09.i', lambda: rule_noreturn_neutral(chk, prog, tier))
     chk.guard('C09.f', lambda: rule_redecl_types(chk, prog, tier))
     chk.guard('C09.g', lambda: rule_typedef_function(chk, prog, tier))
+    chk.guard('C09.j', lambda: rule_func_name_once(chk, prog, tier))
+    chk.guard('C09.k', lambda: rule_tentative_objects(chk, prog, tier))
